@@ -44,6 +44,16 @@ CHECKS = {
             'random C01-class programs on tracer inputs.',
             'Frames are attributed by file name; exempt contexts are those the documentation lists plus assert and `in` tests (not overloadable).',
             'DESIGN.md 3/C04'),
+    'C05': ('exploration',
+            'probe twin: interpreter execution order of CFG nodes checked against cfg.build of the same tree; structural checks with lexical ownership',
+            'cfg.build runs on the very tree whose instrumented copy (probe at every CFG node: statements, tests, loop headers via an '
+            'iterator wrapper, with-items, function entry) is executed by CPython; every invocation trace must be a path from the '
+            'entry to an exit/raise node through unobservable lambda nodes only; each raise must have an edge to the handler statement '
+            'where execution actually resumed; structural checks: next/prev mirror, entry, reachability vs an independent dead-code '
+            'model, stmt_next/stmt_prev recomputed from the node graph. Random programs (incl. loop-else, try in finally, jumps in '
+            'finally) and skeletons with all decision vectors.',
+            'Finally bodies executed during exceptional propagation and implicit exceptions out of calls are exempt as documented.',
+            'DESIGN.md 3/C05'),
     'C09': ('exploration',
             'interface differential against the original function object and CPython argument binding',
             'Random signatures over all five parameter kinds and closure shapes, as functions, lambdas, methods, loop-made and '
